@@ -2414,11 +2414,12 @@ func extractQueryParams(a *expr.MappedAttributeExpr, service *expr.AttributeExpr
 
 func extractHeaders(a *expr.MappedAttributeExpr, svcAtt *expr.AttributeExpr, svcCtx *codegen.AttributeContext, scope *codegen.NameScope) []*HeaderData {
 	var headers []*HeaderData
-	codegen.WalkMappedAttr(a, func(name, elem string, required bool, _ *expr.AttributeExpr) error { // nolint: errcheck
+	codegen.WalkMappedAttr(a, func(name, elem string, required bool, mapped *expr.AttributeExpr) error { // nolint: errcheck
 		var attr *expr.AttributeExpr
 		if attr = svcAtt.Find(name); attr == nil {
 			attr = svcAtt
 		}
+		attr = withMappedValidation(attr, mapped)
 		var hattr *expr.AttributeExpr
 		var stringSlice bool
 		// The StringSlice field of ParamData must be false for aliased primitive types
@@ -2475,14 +2476,27 @@ func extractHeaders(a *expr.MappedAttributeExpr, svcAtt *expr.AttributeExpr, svc
 	return headers
 }
 
+// withMappedValidation returns the service attribute att with the validations
+// of the corresponding mapped header or cookie attribute. These consist of the
+// validations defined in the HTTP Header or Cookie DSL together with the ones
+// inherited from att.
+func withMappedValidation(att, mapped *expr.AttributeExpr) *expr.AttributeExpr {
+	if mapped == nil || mapped.Validation == nil || mapped.Validation == att.Validation {
+		return att
+	}
+	att = expr.DupAtt(att)
+	att.Validation = mapped.Validation
+	return att
+}
+
 func extractCookies(a *expr.MappedAttributeExpr, svcAtt *expr.AttributeExpr, svcCtx *codegen.AttributeContext, scope *codegen.NameScope) []*CookieData {
 	var cookies []*CookieData
-	codegen.WalkMappedAttr(a, func(name, elem string, required bool, _ *expr.AttributeExpr) error { // nolint: errcheck
+	codegen.WalkMappedAttr(a, func(name, elem string, required bool, mapped *expr.AttributeExpr) error { // nolint: errcheck
 		var hattr *expr.AttributeExpr
 		if hattr = svcAtt.Find(name); hattr == nil {
 			hattr = svcAtt
 		}
-		hattr = makeHTTPType(hattr)
+		hattr = makeHTTPType(withMappedValidation(hattr, mapped))
 		var (
 			varn    = scope.Name(codegen.Goify(name, false))
 			typeRef = scope.GoTypeRef(hattr)
